@@ -149,17 +149,17 @@ def sched_tuples(s):
     return [[(so.operation.operation_id, so.start_time, so.machine_id) for so in ml] for ml in s.schedule]
 
 
-def taillard_text(jobs, rng):
+def taillard_text(jobs, rng, sym="#"):
     nm = max(m for job in jobs for ms, _ in job for m in ms) + 1
     lines = []
     if rng.random() < 0.5:
-        lines.append("# generated by the simulator")
+        lines.append(f"{sym} generated by the simulator")
     lines.append(f"{len(jobs)} {nm}")
     for job in jobs:
         sep = " " if rng.random() < 0.7 else "\t"
         lines.append(sep.join(f"{ms[0]}{sep}{d}" for ms, d in job))
         if rng.random() < 0.1:
-            lines.append("# a comment between jobs")
+            lines.append(f"{sym} a comment between jobs")
     return "\n".join(lines) + ("\n" if rng.random() < 0.7 else "")
 
 
@@ -323,7 +323,8 @@ def roundtrip_instance(ctx, inst, jobs, rng, i, flex, jim):
     check_views(ctx, i2, jobs, f"op {i}: instance rebuilt from its dictionary")
     ctx.probe("instance_roundtrip")
     if not flex:
-        text = taillard_text(jobs, rng)
+        sym = rng.choice(["#", "#", "#", "%", "//", ";;"])  # the file's comment symbol is the caller's to name
+        text = taillard_text(jobs, rng, sym)
         fname = rng.choice(["inst.txt", "la99", "dir/sub/ta01.txt", "x.y.z"])
         files = {fname: text}
 
@@ -333,7 +334,8 @@ def roundtrip_instance(ctx, inst, jobs, rng, i, flex, jim):
         jim.open = fake_open
         try:
             explicit = rng.random() < 0.3
-            i3 = JobShopInstance.from_taillard_file(fname, name="given" if explicit else None, **(inst.metadata if rng.random() < 0.5 else {}))
+            i3 = JobShopInstance.from_taillard_file(fname, name="given" if explicit else None, **({} if sym == "#" else {"comment_symbol": sym}),
+                                                    **(inst.metadata if rng.random() < 0.5 else {}))
         finally:
             del jim.open
         want_name = "given" if explicit else fname.split("/")[-1].split(".")[0]
